@@ -140,6 +140,25 @@ pub fn minimise(scen: &Scenario, v: &Violation, budget: Duration) -> (Scenario, 
                 t += 1;
             }
         }
+        // 1b. drop the extra (document, configuration) variants
+        if !cur.variants.is_empty() {
+            try_apply(&mut cx, &mut cur, |s| {
+                s.variants.clear();
+                for t in s.threads.iter_mut() {
+                    t.ops.retain(|o| !matches!(o, Op::Use { .. }));
+                }
+            });
+            try_apply(&mut cx, &mut cur, |s| {
+                for v in s.variants.iter_mut() {
+                    v.config = None;
+                }
+            });
+            try_apply(&mut cx, &mut cur, |s| {
+                for v in s.variants.iter_mut() {
+                    v.doc = None;
+                }
+            });
+        }
         // 2. drop ops
         for t in 0..cur.threads.len() {
             let mut i = cur.threads[t].ops.len();
